@@ -110,6 +110,55 @@ func GuardedByValue(b Edge, match func(ssa.Value) bool, want bool) bool {
 }
 
 // ParamNamed returns the parameter of fn with that name.
+// ParamOfType finds a parameter by its present name and, if the name is gone (a rename is the
+// maintainer's business), the single parameter whose type prints as typ.
+func ParamOfType(fn *ssa.Function, name, typ string) *ssa.Parameter {
+	if p := ParamNamed(fn, name); p != nil && p.Type().String() == typ {
+		return p
+	}
+	var found *ssa.Parameter
+	for _, p := range fn.Params {
+		if p.Type().String() == typ {
+			if found != nil {
+				return nil
+			}
+			found = p
+		}
+	}
+	return found
+}
+
+// BoolParamUnderError finds a bool parameter by its present name and, if the name is gone, by
+// role: the single bool parameter that is tested on the non-nil side of an error test (the
+// "may this failure be passed over" switch of a loader).
+func BoolParamUnderError(fn *ssa.Function, name string) *ssa.Parameter {
+	if p := ParamOfType(fn, name, "bool"); p != nil {
+		return p
+	}
+	var found *ssa.Parameter
+	for _, p := range fn.Params {
+		if p.Type().String() != "bool" {
+			continue
+		}
+		hit := false
+		eachIf(fn, func(iff *ssa.If, cond ssa.Value, neg bool) {
+			if cond != ssa.Value(p) {
+				return
+			}
+			if GuardedByNilTest(Edge{From: iff.Block()}, func(v ssa.Value) bool { return IsErrorType(v.Type()) }, false) {
+				hit = true
+			}
+		})
+		if hit {
+			if found != nil {
+				return nil
+			}
+			found = p
+		}
+	}
+	return found
+}
+
 func ParamNamed(fn *ssa.Function, name string) *ssa.Parameter {
 	for _, p := range fn.Params {
 		if p.Name() == name {
